@@ -16,6 +16,7 @@ theorem tryProto_cls (isList : Bool) (text : String) (b : B) (acc : List Atom) :
   unfold tryProto
   split
   · -- list
+    unfold tryItems
     generalize splitWs text = items
     suffices H : ∀ (st : List Atom × Bool), (∀ a ∈ st.1, a ∈ acc ∨ a.cls = classOf b) →
         ∀ a ∈ (items.foldl (fun (st : List Atom × Bool) item =>
